@@ -202,6 +202,17 @@ fn run_tree(it: &mut core::slice::Iter<u64>, obs: &mut Vec<u64>, depth: usize) {
             });
             assert_eq!(r, 0x5a5a);
         }
+        Some(2) => {
+            let k = *it.next().unwrap_or(&0);
+            let was = interrupts::are_enabled();
+            interrupts::enable();
+            for _ in 0..k {
+                run_tree(it, obs, depth + 1);
+            }
+            if !was {
+                interrupts::disable();
+            }
+        }
         _ => {}
     }
 }
@@ -251,7 +262,11 @@ fn call(fid: u64, a: &[u64], oc_unused: bool) -> R {
             (154, [v]) => { Dr7::write(Dr7Value::from_bits(*v).unwrap()); R::U }
             (155, [v]) => { Dr7::write_raw(*v); R::U }
             (156, [n, cd, sz, t]) => {
-                let (n, cd, sz) = (dr_num(*n), BreakpointCondition::from_bits(*cd).unwrap(), BreakpointSize::from_bits(*sz).unwrap());
+                // the architectural encodings (R/W: 00 execute, 01 write, 10 I/O, 11 read/write; LEN: 00 1 byte,
+                // 01 2 bytes, 10 8 bytes, 11 4 bytes) are turned into the crate's NAMED variants here
+                let cdv = match *cd { 0 => BreakpointCondition::InstructionExecution, 1 => BreakpointCondition::DataWrites, 2 => BreakpointCondition::IoReadsWrites, 3 => BreakpointCondition::DataReadsWrites, _ => panic!() };
+                let szv = match *sz { 0 => BreakpointSize::Length1B, 1 => BreakpointSize::Length2B, 2 => BreakpointSize::Length8B, 3 => BreakpointSize::Length4B, _ => panic!() };
+                let (n, cd, sz) = (dr_num(*n), cdv, szv);
                 Dr7::update(|v| { v.set_condition(n, cd); v.set_size(n, sz); v.toggle_flags(Dr7Flags::from_bits_truncate(*t)); });
                 R::U
             }
@@ -352,8 +367,11 @@ fn call(fid: u64, a: &[u64], oc_unused: bool) -> R {
                     let a = PortGeneric::<T, A>::new(p1);
                     let b = PortGeneric::<T, A>::new(p2);
                     let c = a.clone();
+                    // a clone made INTO an existing port object (Clone::clone_from) must refer to the cloned port too
+                    let mut d = PortGeneric::<T, A>::new(p2);
+                    d.clone_from(&a);
                     // the port number of the clone, read through Debug-free means: equality with every port is decided by the number
-                    vec![(a == b) as u64, (c == a) as u64, if c == PortGeneric::<T, A>::new(p1) { p1 as u64 } else { 0xffff_ffff }]
+                    vec![(a == b) as u64, (c == a && d == a) as u64, if c == PortGeneric::<T, A>::new(p1) && d == PortGeneric::<T, A>::new(p1) { p1 as u64 } else { 0xffff_ffff }]
                 }
                 let (p1, p2) = (*p1 as u16, *p2 as u16);
                 R::L(match (w, kind) {
